@@ -873,3 +873,31 @@ def rule_A_FACTORY_OPEN(ctx, repo, cache, open_only=False, do_open=True):
             o, e, c = bad
             ctx.fail('A-OPEN', mq(ci, '__init__'), '__init__ %s unguarded' % c,
                      '%s.__init__ performs a %s on the store that is not guarded by "the store does not exist yet"' % (ci.label, c), wh(ci, e.line), render_path(o))
+
+
+def rule_A_ABS(ctx, repo, cache):
+    """directory archives identify their store by an absolute path on every construction path (so state/copy/pickle address the same
+    store whatever the working directory is); decided as a contradiction rule: if some path makes the id absolute, all must"""
+    for lab in ('dir_archive', 'hdfdir_archive[hdf]'):
+        ci = archive_classes(repo, [lab])[0]
+        fi, outs, eng = cache.outs(ci, '__init__')
+        good, bad = [], []
+        for o in outs:
+            if o.kind != RETURN:
+                continue
+            evs = o.st.events
+            sets = [(i, e) for i, e in enumerate(evs) if e.kind == 'SELFSET' and e.args[0] == C('__state__') and len(e.args) > 2 and e.args[1] == C('id')]
+            if not sets:
+                continue
+            i, e = sets[-1]
+            val = e.args[2]
+            is_abs = contains_term(val, lambda t: t[0] == 'call' and t[1][0] == 'lib' and t[1][1] in ('os.path.abspath', 'os.path.realpath')) \
+                or any(x.kind == 'MKDIR' and x.line == e.line for x in evs[:i])
+            (good if is_abs else bad).append((o, e))
+        ctx.ob('A-ABS', lab, not (good and bad))
+        if good and bad:
+            o, e = bad[0]
+            ctx.fail('A-ABS', mq(ci, '__init__'), 'relative store id on some path',
+                     '%s.__init__ records an absolute location on %d construction path(s) but the raw, possibly relative, argument on another (%s): a handle opened by relative '
+                     'path, its state, copies and pickles then address a different directory after a chdir or in another process' % (lab, len(good), wh(ci, e.line)),
+                     wh(ci, e.line), render_path(o))
